@@ -243,8 +243,8 @@ func checkC06Clone(c *Ctx, r *Rule, only map[string]bool) {
 		default:
 			okc := val != nil && canon(info, val) == src
 			if !okc && newVar != "" {
-				// assigned after the literal
-				okc = hasAssign(info, clone.Body, newVar+"."+name, src)
+				// assigned after the literal, or (slices) copied into an exact-length fresh slice
+				okc = hasAssign(info, clone.Body, newVar+"."+name, src) || (isSlice && hasSliceCopy(info, clone.Body, src, newVar+"."+name))
 			}
 			r.Check(okc, clone.Name(), desc, lit.Pos(), "copied from "+src, "Statement."+name+" is not carried over by clone: the value is lost by any Session/WithContext/chain derivation")
 		}
